@@ -1,24 +1,61 @@
 /*
- * Shared by the blkmap64_rb.c units (C16, red-black-tree backend) — BOUNDED units, level B(4):
- * the tree is built by hand from n <= 4 extents taken from IN (sorted, disjoint, non-adjacent, count > 0), in
- * every red-black shape that n nodes admit (IN.shape), with the cursors set to arbitrary nodes or NULL
- * (rcursor_next: NULL or the in-order successor of rcursor, which is the invariant rb_test_bit maintains).
- * After ONE operation the tree is walked by the harness's own in-order walk (not by rbtree.c) and checked for
- *   well_formed: child/parent links consistent, extents sorted, disjoint, non-adjacent, count > 0, cursors NULL or
- *                pointing into the tree, rcursor_next NULL or successor of rcursor;
+ * Shared by the blkmap64_rb.c units (C16, red-black-tree backend) — BOUNDED units, level B(n):
+ * the tree is built by hand from exactly RB_N extents (compile-time constant of the unit, 0..4; with RB_NSYM the
+ * number is symbolic in 0..RB_N) taken from IN (sorted, disjoint, non-adjacent, count > 0), in every red-black
+ * shape that so many nodes admit (IN.shape, or the constant RB_SHAPE), with the cursors set to arbitrary nodes or
+ * NULL (rcursor_next: NULL or the in-order successor of rcursor, which is the invariant rb_test_bit maintains).
+ * After ONE operation the tree is walked by the harness's own structural in-order walk (not by rbtree.c) and
+ * checked for
+ *   well_formed: child/parent links consistent, height <= RB_MAXH, extents sorted, disjoint, non-adjacent,
+ *                count > 0, no wrap, cursors NULL or pointing into the tree, rcursor_next NULL or successor of rcursor;
+ *   colours_ok:  root black, no red node with a red child, equal number of black nodes on every root-to-nil path
+ *                (so the result is again one of the shapes the builder enumerates for its size);
  *   set view at the ghost bit verif_k against the reference set computed from IN.
  * All bit numbers in IN are relative to bitmap->start unless stated otherwise.
+ *
+ * Size knobs (per unit, via "defines"):
+ *   RB_N      number of extents before the operation (constant)             RB_NSYM  make it symbolic 0..RB_N
+ *   RB_SHAPE  fix the shape selector (otherwise symbolic: all shapes)
+ *   RB_BITS   real_end - start < 2^RB_BITS (default 62; the code is plain 64-bit arithmetic on offsets, the cap only
+ *             narrows the values the solver has to consider and is stated in the unit's "assumes")
+ *   RB_NEW    how many extents the operation may add (default 1) — sizes the walk
  */
 #include "verif.h"
 
 #define RB_MAXN 4
-#define RB_MAXWALK 6
+#ifndef RB_N
+#define RB_N 2
+#endif
+#if RB_N > RB_MAXN
+#error "RB_N > 4: add the shapes to build_shape first"
+#endif
+#ifndef RB_NEW
+#define RB_NEW 1
+#endif
+#ifndef RB_BITS
+#define RB_BITS 62
+#endif
+#define RB_TOTAL (RB_N + RB_NEW)
+/* a red-black tree of N nodes has height <= 1, 2, 2, 3, 3, 4, 4 for N = 1..7 */
+#ifndef RB_MAXH
+#if RB_TOTAL <= 1
+#define RB_MAXH 1
+#elif RB_TOTAL <= 3
+#define RB_MAXH 2
+#elif RB_TOTAL <= 5
+#define RB_MAXH 3
+#else
+#define RB_MAXH 4
+#endif
+#endif
+#define RB_MAXWALK (RB_TOTAL + 1)	/* one more than the operation can legally produce */
 
 struct in_rb {
 	unsigned long long start, end, real_end;	/* bitmap geometry (absolute) */
-	unsigned char n;				/* number of extents, 0..4 */
+	unsigned char n;				/* number of extents (RB_NSYM only) */
 	unsigned char shape;				/* tree shape / colouring selector */
-	unsigned char wc, rc, rcn;			/* cursor selectors: 0 = NULL, i+1 = extent i; rcn: 0 = NULL, else successor */
+	unsigned char wc, rc, rcn;			/* cursor selectors: 0 = NULL, i+1 = extent i; rcn: 0 = NULL, else the successor of
+							   rcursor (if rcursor is NULL: any extent — rb_free_extent leaves that state) */
 	unsigned long long es[RB_MAXN], ec[RB_MAXN];	/* extent start (relative) and count */
 	unsigned long long arg, arg2;			/* operation arguments */
 	unsigned int num;
@@ -30,18 +67,67 @@ struct in_rb IN;
 
 unsigned long long verif_k;
 
+/*
+ * ext2fs.h offers EXT2_CUSTOM_MEMORY_ROUTINES: its inline malloc/free wrappers are then left out and the application
+ * supplies them.  The units define that macro and give the two wrappers blkmap64_rb.c uses as trivial malloc/free stubs
+ * (same behaviour as the inline ones of ext2fs.h; the only difference is that the pointer is moved by a typed store
+ * instead of memcpy(ptr, &pp, sizeof(pp)), which the verifier would otherwise treat as eight symbolic bytes and lose
+ * every points-to fact about freshly allocated tree nodes).  rb_get_new_extent abort()s when allocation fails, so
+ * allocation failure is not a behaviour of the operations checked here; malloc does not fail in these units.
+ */
+#ifndef EXT2_CUSTOM_MEMORY_ROUTINES
+#error "the rb units are built with -DEXT2_CUSTOM_MEMORY_ROUTINES (see above)"
+#endif
+#include <stdlib.h>
+#ifndef VERIF_NATIVE
+/*
+ * malloc that cannot fail (what cbmc --no-malloc-may-fail gives; the driver offers no way to pass that option to the
+ * instrumentation step where CBMC 6 bakes the failure mode in).  With the library model every pointer handed out is
+ * "NULL or the new object", and no pointer of the tree stays a constant for the symbolic execution.
+ */
+void *malloc(__CPROVER_size_t n)
+{
+	return __CPROVER_allocate(n, 0);
+}
+#endif
+long ext2fs_get_mem(unsigned long size, void *ptr)
+{
+	void *pp = malloc(size);
+	ASSUME(pp != 0);
+	*(void **)ptr = pp;
+	return 0;
+}
+long ext2fs_free_mem(void *ptr)
+{
+	void **pp = (void **)ptr;
+	free(*pp);
+	*pp = 0;
+	return 0;
+}
+
 #include "lib/ext2fs/blkmap64_rb.c"
+
+#ifdef RB_NSYM
+#define NN ((int)IN.n)
+#else
+#define NN RB_N
+#endif
+#ifdef RB_SHAPE
+#define SHAPE (RB_SHAPE)
+#else
+#define SHAPE (IN.shape)
+#endif
 
 static struct ext2fs_struct_generic_bitmap_64 BM;
 static struct ext2fs_rb_private *BP;
-static struct bmap_rb_extent *ND[RB_MAXN];
+static struct bmap_rb_extent *ND[RB_MAXN + 1];
 
 /* reference set (from IN): membership of relative bit b before the operation */
 static int ref_member(unsigned long long b)
 {
 	int r = 0;
-	for (int i = 0; i < RB_MAXN; i++)
-		if (i < IN.n && b >= IN.es[i] && b - IN.es[i] < IN.ec[i])
+	for (int i = 0; i < RB_N; i++)
+		if (i < NN && b >= IN.es[i] && b - IN.es[i] < IN.ec[i])
 			r = 1;
 	return r;
 }
@@ -49,8 +135,8 @@ static int ref_member(unsigned long long b)
 static int ref_any_in(unsigned long long s, unsigned long long c)
 {
 	int r = 0;
-	for (int i = 0; i < RB_MAXN; i++)
-		if (i < IN.n && c > 0 && IN.es[i] < s + c && s < IN.es[i] + IN.ec[i])
+	for (int i = 0; i < RB_N; i++)
+		if (i < NN && c > 0 && IN.es[i] < s + c && s < IN.es[i] + IN.ec[i])
 			r = 1;
 	return r;
 }
@@ -70,25 +156,25 @@ static void mkroot(int r)
 }
 
 /* every red-black tree over n <= 4 sorted keys 0..n-1 */
-static void build_shape(void)
+static void build_shape(int n)
 {
-	switch (IN.n) {
+	switch (n) {
 	case 0:
 		break;
 	case 1:
 		mkroot(0);
 		break;
 	case 2:
-		if (IN.shape & 1) { mkroot(0); lnk(1, 0, 1, 0); }
+		if (SHAPE & 1) { mkroot(0); lnk(1, 0, 1, 0); }
 		else { mkroot(1); lnk(0, 1, 0, 0); }
 		break;
 	case 3:
 		mkroot(1);
-		lnk(0, 1, 0, IN.shape & 1);
-		lnk(2, 1, 1, IN.shape & 1);
+		if (SHAPE & 1) { lnk(0, 1, 0, 1); lnk(2, 1, 1, 1); }
+		else { lnk(0, 1, 0, 0); lnk(2, 1, 1, 0); }
 		break;
 	default:
-		switch (IN.shape & 3) {
+		switch (SHAPE & 3) {
 		case 0: mkroot(1); lnk(0, 1, 0, 1); lnk(2, 1, 1, 1); lnk(3, 2, 1, 0); break;
 		case 1: mkroot(1); lnk(0, 1, 0, 1); lnk(3, 1, 1, 1); lnk(2, 3, 0, 0); break;
 		case 2: mkroot(2); lnk(3, 2, 1, 1); lnk(1, 2, 0, 1); lnk(0, 1, 0, 0); break;
@@ -100,14 +186,13 @@ static void build_shape(void)
 static void build_rb(void)
 {
 	LOAD_IN();
-	ASSUME(IN.n <= RB_MAXN);
-#ifdef RB_CAP
-	ASSUME(IN.n <= RB_CAP);	/* tighter bound of this unit (stated in its level) */
+#ifdef RB_NSYM
+	ASSUME(IN.n <= RB_N);
 #endif
 	ASSUME(IN.start <= IN.end && IN.end <= IN.real_end);
-	ASSUME(IN.real_end - IN.start < (1ULL << 62));
-	for (int i = 0; i < RB_MAXN; i++) {
-		if (i < IN.n) {
+	ASSUME(IN.real_end - IN.start < (1ULL << RB_BITS));
+	for (int i = 0; i < RB_N; i++) {
+		if (i < NN) {
 			ASSUME(IN.ec[i] > 0);
 			ASSUME(IN.es[i] <= IN.real_end - IN.start && IN.ec[i] - 1 <= IN.real_end - IN.start - IN.es[i]);
 			if (i > 0)
@@ -117,9 +202,10 @@ static void build_rb(void)
 	BP = malloc(sizeof(*BP));
 	ASSUME(BP != 0);
 	BP->root.rb_node = 0;
-	for (int i = 0; i < RB_MAXN; i++) {
+	for (int i = 0; i <= RB_MAXN; i++)
 		ND[i] = 0;
-		if (i < IN.n) {
+	for (int i = 0; i < RB_N; i++) {
+		if (i < NN) {
 			ND[i] = malloc(sizeof(struct bmap_rb_extent));
 			ASSUME(ND[i] != 0);
 			ND[i]->node.rb_left = ND[i]->node.rb_right = 0;
@@ -128,11 +214,25 @@ static void build_rb(void)
 			ND[i]->count = IN.ec[i];
 		}
 	}
-	build_shape();
-	ASSUME(IN.wc <= IN.n && IN.rc <= IN.n);
+#ifdef RB_NSYM
+	switch (IN.n) {
+	case 0: build_shape(0); break;
+	case 1: build_shape(1); break;
+	case 2: build_shape(2); break;
+	case 3: build_shape(3); break;
+	default: build_shape(4); break;
+	}
+#else
+	build_shape(RB_N);
+#endif
+	ASSUME(IN.wc <= NN && IN.rc <= NN);
 	BP->wcursor = IN.wc ? ND[IN.wc - 1] : 0;
 	BP->rcursor = IN.rc ? ND[IN.rc - 1] : 0;
-	BP->rcursor_next = (IN.rc && IN.rcn && IN.rc < IN.n) ? ND[IN.rc] : 0;
+	ASSUME(IN.rcn <= NN);
+	if (IN.rc)
+		BP->rcursor_next = (IN.rcn && IN.rc < NN) ? ND[IN.rc] : 0;
+	else
+		BP->rcursor_next = IN.rcn ? ND[IN.rcn - 1] : 0;	/* rcursor freed, rcursor_next stale but in the tree */
 	memset(&BM, 0, sizeof(BM));
 	BM.magic = EXT2_ET_MAGIC_GENERIC_BITMAP64;
 	BM.start = IN.start;
@@ -146,36 +246,69 @@ static void build_rb(void)
 /* ---- the harness's own view of the tree after the operation ---- */
 static struct bmap_rb_extent *W[RB_MAXWALK];
 static int WN;
-static int WALK_OK;	/* links consistent and walk complete */
+static int WALK_OK;	/* links consistent, height <= RB_MAXH, at most RB_MAXWALK nodes */
+static int COL_OK;	/* red-black colour invariants */
 
-/* iterative in-order walk with an explicit stack; checks parent links on the way down */
+/*
+ * structural in-order walk, one function per level (no recursion, no loop): checks the parent link of every node on
+ * the way down, appends the nodes in order to W, returns the black height of the subtree (nil = 0).
+ */
+static int visit_too_deep(struct rb_node *x, struct rb_node *p, int pred)
+{
+	(void)p; (void)pred;
+	if (x)
+		WALK_OK = 0;
+	return 0;
+}
+#define DEFVISIT(name, sub) \
+static int name(struct rb_node *x, struct rb_node *p, int pred) \
+{ \
+	if (!x) \
+		return 0; \
+	int red = ext2fs_rb_is_red(x) ? 1 : 0; \
+	if (ext2fs_rb_parent(x) != p) \
+		WALK_OK = 0; \
+	if (red && pred) \
+		COL_OK = 0; \
+	int l = sub(x->rb_left, x, red); \
+	if (WN >= RB_MAXWALK) { \
+		WALK_OK = 0; \
+		return 0; \
+	} \
+	W[WN++] = node_to_extent(x); \
+	int r = sub(x->rb_right, x, red); \
+	if (l != r) \
+		COL_OK = 0; \
+	return l + !red; \
+}
+#if RB_MAXH >= 4
+DEFVISIT(visit4, visit_too_deep)
+#else
+#define visit4 visit_too_deep
+#endif
+#if RB_MAXH >= 3
+DEFVISIT(visit3, visit4)
+#else
+#define visit3 visit_too_deep
+#endif
+#if RB_MAXH >= 2
+DEFVISIT(visit2, visit3)
+#else
+#define visit2 visit_too_deep
+#endif
+DEFVISIT(visit1, visit2)
+
 static void walk(void)
 {
-	struct rb_node *stack[RB_MAXWALK];
-	int sp = 0;
-	struct rb_node *cur = BP->root.rb_node;
+	struct rb_node *root = BP->root.rb_node;
 	WN = 0;
 	WALK_OK = 1;
-	if (cur && ext2fs_rb_parent(cur) != 0)
-		WALK_OK = 0;
-	for (int it = 0; it < 2 * RB_MAXWALK + 2; it++) {
-		if (cur) {
-			if (sp >= RB_MAXWALK) { WALK_OK = 0; return; }
-			stack[sp++] = cur;
-			if (cur->rb_left && ext2fs_rb_parent(cur->rb_left) != cur)
-				WALK_OK = 0;
-			cur = cur->rb_left;
-		} else if (sp > 0) {
-			cur = stack[--sp];
-			if (WN >= RB_MAXWALK) { WALK_OK = 0; return; }
-			W[WN++] = node_to_extent(cur);
-			if (cur->rb_right && ext2fs_rb_parent(cur->rb_right) != cur)
-				WALK_OK = 0;
-			cur = cur->rb_right;
-		} else
-			return;
-	}
-	WALK_OK = 0;	/* more nodes than the bound allows */
+	COL_OK = 1;
+	for (int i = 0; i < RB_MAXWALK; i++)
+		W[i] = 0;
+	if (root && ext2fs_rb_is_red(root))
+		COL_OK = 0;
+	visit1(root, 0, 0);
 }
 
 static int in_tree(struct bmap_rb_extent *p)
@@ -216,3 +349,9 @@ static int view(unsigned long long b)
 			r = 1;
 	return r;
 }
+
+#define CHECK_TREE(what) do { \
+	walk(); \
+	CHECK(well_formed(), what ": well_formed (links, height, sorted, disjoint, non-adjacent, count > 0, cursors)"); \
+	CHECK(COL_OK, what ": red-black colour invariants (root black, no red-red, equal black height)"); \
+} while (0)
